@@ -62,7 +62,15 @@ pub fn body(inst: &str) {
                 must("&p * s", || &pa() * s, |r| expect_poly("&p * s", &r, &scal));
                 must("p * s", || pa() * s, |r| expect_poly("p * s", &r, &scal));
                 must("clone", || pa().clone(), |r| expect_poly("clone", &r, &a));
-                if la == 0 { must("eval of the empty polynomial", || pa().eval(x), |r| { prove_eq("the empty polynomial evaluates to zero at every point", r, z()); }); }
+                if la == 0 {
+                    // "the empty polynomial acts as zero" under evaluation and differentiation
+                    must("eval of the empty polynomial", || pa().eval(x), |r| { prove_eq("the empty polynomial evaluates to zero at every point", r, z()); });
+                    must("derivative of the empty polynomial", || pa().derivative(), |r| expect_poly("derivative of the empty polynomial is the zero polynomial", &r, &[]));
+                    for order in 0..=2 {
+                        must(&format!("derivative_n({}) of the empty polynomial", order), || pa().derivative_n(order), |r| expect_poly(&format!("derivative_n({}) of the empty polynomial", order), &r, &[]));
+                        must(&format!("derivative_at(x, {}) of the empty polynomial", order), || pa().derivative_at(x, order), |r| { prove_eq(&format!("derivative_at(x, {}) of the empty polynomial is zero", order), r, z()); });
+                    }
+                }
                 if la >= 1 {
                     // derivative orders 0 ..= degree+1
                     let mut cur = a.clone();
